@@ -69,14 +69,14 @@ package gate
 // The version is the hex SHA-256 of the configuration's JSON: same content, same version.
 //@ func configVersion
 //@   props C35
-//@   at-call Marshal as js: assert ref(arg0) == cfg
+//@   at-call json.Marshal as js: assert ref(arg0) == cfg
 //@   at-call Sum256 as h: assert called(js) && res(js, 1) == nil && ref(arg0) == ref(res(js, 0)) && len(arg0) == len(res(js, 0))
 //@   ensures [encoding-error-is-an-error] called(js) && res(js, 1) != nil ==> result.1 != nil && !called(h)
 // Content equality is equality of the JSON encodings.
 //@ func configsEqual
 //@   props C35
-//@   at-call Marshal#1 as ja: assert ref(arg0) == a
-//@   at-call Marshal#2 as jb: assert ref(arg0) == b
+//@   at-call json.Marshal#1 as ja: assert ref(arg0) == a
+//@   at-call json.Marshal#2 as jb: assert ref(arg0) == b
 //@   at-call Equal as eq: assert called(ja) && res(ja, 1) == nil && called(jb) && res(jb, 1) == nil && ref(arg0) == ref(res(ja, 0)) && ref(arg1) == ref(res(jb, 0))
 //@   ensures [json-equality] (called(eq) ==> result == res(eq)) && (!called(eq) ==> !result)
 // Route-only: both must run Lite, and everything but the routes must be equal.
